@@ -70,6 +70,7 @@ class Cli(Engine):
     name = "cli"
     SECT = {
         "C09": ["EXIT", "NAMED"],
+        "C14": ["EXIT", "JS"],
         "C19": ["WR"],
         "C20": ["OUT", "JS", "OM", "TR", "VR", "EM"],
     }
@@ -105,6 +106,9 @@ class Cli(Engine):
         if prop == "C09":
             # some invocation in which a command really failed (the log is the witness)
             return rec[0] if any(v not in ("-", "") for v in _per_step(sec.get("NAMED"))) else None
+        if prop == "C14":
+            # a forced invocation that really executed something
+            return rec[0] if ("force" in rec[0] or " f," in rec[0] or " f " in rec[0]) and any(v != "-" for v in _per_step(sec.get("LOG"))) else None
         if prop == "C19":
             # some invocation that got as far as touching the disk, or that completed its action
             ok = any(v != "-" for v in _per_step(sec.get("DIFF"))) or any(v == "0" for v in _per_step(sec.get("EXIT")))
@@ -147,6 +151,7 @@ class Cli(Engine):
     def rule(self, prop):
         return {
             "C09": "seeded random spokfiles (1-4 tasks x 1-4 commands, commands failing with status 1..255 in requested tasks and in dependencies) x {plain, --quiet, --json, --force, ...} x cwd in {root, nested}, each case a sequence of 2-3 invocations of the real binary in a sandbox HOME; non-trivial = distinct case in which the side-effect log shows a failing command",
+            "C14": "cli engine (the real binary): seeded random spokfiles (1-4 tasks with file dependencies, always a default task, nothing failing) as sequences `plain run; --force|-f (± --json/--quiet/--debug) with the same task names or none (the default task); plain run [; forced run]`, cwd in {root, nested}; judged from the side-effect log: every task of the forced closure executed, none reported skipped; non-trivial = distinct case whose forced invocation executed commands",
             "C19": "exhaustive: every subset of the nine boolean flags x {valid, syntax error, duplicate task, ...} spokfiles, one invocation each; plus seeded random trees x valid/invalid spokfiles x action flags x cwd in {root, nested, outside} as sequences of 1-3 invocations (fmt twice, init twice, run twice); non-trivial = distinct case in which an invocation completed its action or changed the sandbox",
             "C20": "seeded random spokfiles (1-5 tasks, 0-4 commands printing distinct markers to stdout/stderr, 0-5 variables incl. join(), docstrings, with/without a default task) x report flags, sequences of 1-3 invocations so that skipped tasks appear; non-trivial = distinct case with a report / listing on stdout or an executed command",
         }[prop]
